@@ -35,8 +35,8 @@ ASSUMPTIONS = [
     "amounts have <= 11 decimals so sums are compared exactly",
 ]
 SETTINGS: Dict[str, Dict[str, Any]] = {
-    "quick": {"cases": 1500, "cli_cases": 48, "budget_s": 50, "minimums": {"must_fail_observed": 150, "sell_all_observed": 300, "multi_lot_events": 1000, "cli_runs": 6}},
-    "thorough": {"cases": 80000, "cli_cases": 300, "budget_s": 420, "minimums": {"must_fail_observed": 8000, "sell_all_observed": 15000, "multi_lot_events": 50000, "cli_runs": 150}},
+    "quick": {"cases": 1500, "cli_cases": 48, "budget_s": 50, "minimums": {"corpus_runs": 100, "must_fail_observed": 150, "sell_all_observed": 300, "multi_lot_events": 1000, "cli_runs": 6}},
+    "thorough": {"cases": 80000, "cli_cases": 300, "budget_s": 420, "minimums": {"corpus_runs": 100, "must_fail_observed": 8000, "sell_all_observed": 15000, "multi_lot_events": 50000, "cli_runs": 150}},
 }
 
 
@@ -126,6 +126,9 @@ def _run_one(ctx: Any, ip: Any, family: str, hist: Dict[str, Any], sched: Dict[i
 
 
 def run_shard(ctx: Any) -> None:
+    from rpv.checks import corpus_slice
+
+    corpus_slice.run(ctx, PROPERTY_ID)  # the repository's own example inputs, every method and the config's schedule
     from rpv.drive_inproc import InProc
 
     ip = InProc(ctx.scratch, EXCHANGES, HOLDERS, ASSETS)
@@ -168,6 +171,11 @@ def run_shard(ctx: Any) -> None:
 
 
 def replay(ctx: Any, case: Dict[str, Any]) -> None:
+    if case.get("corpus"):
+        from rpv.checks import corpus_slice
+
+        corpus_slice.replay(ctx, PROPERTY_ID, case)
+        return
     from rpv.drive_inproc import InProc
 
     if case.get("cli"):
